@@ -128,7 +128,7 @@ class ExpressionFunction(Callable, SimpleRepr):
         # keep the variables that were already fixed by a previous partial()
         fixed = dict(self._fixed_vars)
         fixed.update(kwargs)
-        return ExpressionFunction(self.expression, **fixed)
+        return ExpressionFunction(self.expression, self._source_file, **fixed)
 
     def __call__(self, **kwargs):
         # Note that we only accept named arguments !
